@@ -1,10 +1,10 @@
 #!/bin/sh
 # verify one seeded change: tools/verify_seed.sh C07 a   (seed material in /tmp/seed_<ID>.out/<x>/)
 # result: /verif/seeded/<ID>_<x>/{patch.diff,demo.py,notes.md,meta.json}; scratch worktree removed afterwards
-ID="$1"; X="$2"; SRC="/tmp/seed_$ID.out/$X"
+ID="$1"; X="$2"; SRC="${SEED_SRC:-/tmp/seed_$ID.out}/$X"
 [ -f "$SRC/patch.diff" ] || { echo "no patch for $ID $X"; exit 2; }
 WT=$(mktemp -d /tmp/vseed.XXXXXX); rmdir "$WT"
-git -C /repo worktree add -q --detach "$WT" 9a106ba || exit 3
+git -C /repo worktree add -q --detach "$WT" "${SEED_BASE:-9a106ba}" || exit 3
 cd "$WT"
 D0=$(/venv/bin/python "$SRC/demo.py" >"$WT.demo0.log" 2>&1; echo $?)
 APPLY=$(git apply "$SRC/patch.diff" 2>&1; echo "rc=$?")
@@ -13,12 +13,12 @@ T=$(/venv/bin/python -m pytest -q -p no:cacheprovider --timeout=900 kawin/tests 
 OUT="/verif/seeded/${ID}_$X"; mkdir -p "$OUT"
 cp "$SRC/patch.diff" "$SRC/demo.py" "$OUT/"; [ -f "$SRC/notes.md" ] && cp "$SRC/notes.md" "$OUT/"
 python3 - "$ID" "$X" "$D0" "$D1" "$T" "$APPLY" "$OUT" "$WT" <<'PY'
-import sys, json
+import sys, json, os
 ID, X, D0, D1, T, APPLY, OUT, WT = sys.argv[1:]
 tail = lambda p: open(p, errors='replace').read()[-600:]
 ok = D0 == '0' and D1 != '0' and ' passed' in T and 'failed' not in T and APPLY.endswith('rc=0')
 json.dump(dict(property=ID, seed=X, breaks=ID, verified=ok,
-               ran=dict(base='pinned commit 9a106ba in a scratch worktree (removed)', demo_on_original_exit=int(D0), demo_with_patch_exit=int(D1),
+               ran=dict(base=os.environ.get('SEED_BASE','pinned commit 9a106ba')+' in a scratch worktree (removed)', demo_on_original_exit=int(D0), demo_with_patch_exit=int(D1),
                         testsuite_with_patch=T.strip(), git_apply=APPLY),
                demo_with_patch_tail=tail(WT + '.demo1.log'),
                needs_to_manifest='see notes.md (written by the independent sub-agent that produced the change)'),
